@@ -2,7 +2,7 @@
 import errno
 import random
 
-from .common import signature, detail, case_of, account_build
+from .common import signature, detail, case_of, account_build, nested_cache_rel
 from ..env import Scratch
 from ..world import World
 from ..gen import GenCfg, gen_program, program_shape
@@ -69,7 +69,7 @@ def run_shard(sh):
         program = gen_program(rng, cfg)
         shape = program_shape(program)
         with Scratch('f') as sc:
-            w = World(sc, 'k/kk/cache.gz' if rng.random() < 0.2 else 'cache.gz')
+            w = World(sc, nested_cache_rel(rng, program) if rng.random() < 0.2 else 'cache.gz')
             counter = [0]
             ok = True
             for _ in range(rng.randint(0, 3)):
